@@ -59,6 +59,7 @@ type BackendConn struct {
 	closeWhenDrained bool
 	closeSilent      bool
 	Dead             bool
+	Owner            string // client connection whose accept dialled this backend connection
 }
 
 // ClientConn is the simulated-client side of one client connection.
@@ -68,6 +69,7 @@ type ClientConn struct {
 	Port  string
 	Recv  []byte // everything rend has sent on this connection
 	Taken int    // prefix of Recv already consumed by the harness
+	begun bool
 }
 
 // Unread returns the reply bytes not yet consumed by the harness.
@@ -105,6 +107,7 @@ type World struct {
 	LogEvents bool
 	nconn     int
 	ndial     int
+	accepting string
 }
 
 // Stats are per-run reach counters.
@@ -157,7 +160,7 @@ func (w *World) dial(network, addr string) (net.Conn, error) {
 	}
 	w.nconn++
 	c := simnet.NewConn(w.Run, fmt.Sprintf("b%d", w.nconn), "backend", addr)
-	t.Conns = append(t.Conns, &BackendConn{C: c, T: t})
+	t.Conns = append(t.Conns, &BackendConn{C: c, T: t, Owner: w.accepting})
 	return c, nil
 }
 
@@ -174,6 +177,7 @@ func (w *World) Connect(port string) *ClientConn {
 	c := simnet.NewConn(w.Run, name, "client", port)
 	cc := &ClientConn{C: c, Name: name, Port: port}
 	w.Clients = append(w.Clients, cc)
+	w.accepting = name
 	w.Listeners[port].Push(c)
 	return cc
 }
@@ -222,6 +226,7 @@ func (w *World) Quiesce() {
 type Event struct {
 	Label string
 	Prio  int
+	Owner string // client connection on whose behalf the event happens ("" if shared)
 	Do    func()
 }
 
@@ -390,7 +395,7 @@ func (w *World) Internal() []Event {
 			continue
 		}
 		p := p
-		evs = append(evs, Event{Label: "release " + p.Label(), Prio: 0, Do: func() {
+		evs = append(evs, Event{Label: "release " + p.Label(), Prio: 0, Owner: p.Who, Do: func() {
 			out := 0
 			if p.N > 1 {
 				out = w.Ch.Choose(p.N, p.Label())
@@ -417,7 +422,7 @@ func (w *World) Internal() []Event {
 		}
 		b.pull()
 		if b.hasRequest() {
-			evs = append(evs, Event{Label: "proc " + b.C.Name, Prio: 1, Do: func() {
+			evs = append(evs, Event{Label: "proc " + b.C.Name, Prio: 1, Owner: b.Owner, Do: func() {
 				w.procOne(b)
 				for w.ProcAll && b.hasRequest() {
 					w.procOne(b)
@@ -425,7 +430,7 @@ func (w *World) Internal() []Event {
 			}})
 		}
 		if len(b.replyQ) > 0 {
-			evs = append(evs, Event{Label: "reply " + b.C.Name, Prio: 2, Do: func() { w.deliverReply(b) }})
+			evs = append(evs, Event{Label: "reply " + b.C.Name, Prio: 2, Owner: b.Owner, Do: func() { w.deliverReply(b) }})
 		}
 	}
 	return evs
@@ -499,7 +504,7 @@ func (w *World) Send(c *ClientConn, data []byte) bool {
 			k = w.segment(len(data), c.Name)
 		}
 		sent += k
-		c.C.Deliver(data[:k])
+		w.Deliver(c, data[:k])
 		data = data[k:]
 		w.Stat.ClientSegs++
 		w.logf("send %s %dB (%d left)", c.Name, k, len(data))
@@ -545,7 +550,7 @@ func (w *World) SendCuts(c *ClientConn, data []byte, cuts []int) bool {
 		if cut <= prev || cut > len(data) {
 			continue
 		}
-		c.C.Deliver(data[prev:cut])
+		w.Deliver(c, data[prev:cut])
 		w.Stat.ClientSegs++
 		w.logf("send %s %dB (cut at %d)", c.Name, cut-prev, cut)
 		prev = cut
@@ -554,4 +559,22 @@ func (w *World) SendCuts(c *ClientConn, data []byte, cuts []int) bool {
 		}
 	}
 	return true
+}
+
+// Deliver hands client bytes to rend. The very first byte of a connection is
+// delivered on its own and the world is allowed to quiesce before the rest follows:
+// rend's protocol detection peeks one byte on a temporary goroutine, and only then
+// starts the connection loop; delivering more at once would let the temporary
+// goroutine buffer the whole request, the loop goroutine would never touch the
+// simulated socket and could not be attributed to its connection.
+func (w *World) Deliver(c *ClientConn, data []byte) {
+	if !c.begun && len(data) > 0 {
+		c.begun = true
+		c.C.Deliver(data[:1])
+		w.Quiesce()
+		data = data[1:]
+	}
+	if len(data) > 0 {
+		c.C.Deliver(data)
+	}
 }
